@@ -1097,3 +1097,11 @@ mod test {
         assert!(size_of::<SentPacket>() <= 128);
     }
 }
+
+#[cfg(feature = "verif-hooks")]
+impl Dedup {
+    /// Lowest packet number higher than all yet authenticated
+    pub(super) fn verif_next(&self) -> u64 {
+        self.next
+    }
+}
